@@ -158,6 +158,10 @@ func (p *Path) intrinsic(fn *ssa.Function, args []Value) (Value, bool) {
 	case "verifUnwind":
 		p.unwind = int(p.concreteInt(args[0], "unwind"))
 		return nil, true
+	case "verifUnwindAssume":
+		p.unwind = int(p.concreteInt(args[0], "unwind"))
+		p.unwindAssume = true
+		return nil, true
 	case "verifMatch":
 		re, err := parseRe(constStr(p, args[1], "pattern"))
 		if err != nil {
@@ -209,6 +213,40 @@ func (p *Path) intrinsic(fn *ssa.Function, args []Value) (Value, bool) {
 			return tFalse, true
 		}
 		return p.effectFail[i], true
+	case "verifNotKeyOf":
+		// assume that s is not a key of the (constant) map m
+		s := args[0].(*Term)
+		m := args[1].(MapRef)
+		if m.m == nil {
+			return nil, true
+		}
+		if !s.IsConst() && p.isBigConstMap(m.m) {
+			c := mkEq(mkUF(registerBigMap(m.m), SStr, s), mkStr(""))
+			p.assume(c)
+			return nil, true
+		}
+		var keys []string
+		for _, e := range m.m.entries {
+			k, ok := e.k.(*Term)
+			if !ok || !k.IsConst() {
+				p.unsupported("verifNotKeyOf on a map with symbolic keys")
+			}
+			keys = append(keys, k.S)
+		}
+		c := mkNot(memberOf(s, keys))
+		if c.IsFalse() {
+			panic(pathAbort{kind: "assume", msg: "assumption is false"})
+		}
+		p.assume(c)
+		return nil, true
+	case "verifMemberOf":
+		words, ok := stringSliceConsts(args[1])
+		if !ok {
+			p.unsupported("verifMemberOf needs a slice of constant strings")
+		}
+		return memberOf(args[0].(*Term), words), true
+	case "specIsGoReserved":
+		return memberOf(args[0].(*Term), goReservedIdents()), true
 	case "verifGlobalWrites":
 		return mkInt(int64(len(p.gwrites))), true
 	case "verifTrackGlobals":
